@@ -4,8 +4,15 @@
    CR LF pair is split by a cut (XML 2.11 normalises line ends per entity; the two *_split_crlf lemmas show
    the proviso is necessary).  On the model: at an entity reference the loops really run the replacement
    text in place (norm_attr_entity_step, text_loop_entity_step); the first declaration of a name wins.
-   Not proved: the tokenizer concatenation lemma for replacement texts containing markup (D15 is the
-   known finding in that area); covered by the metamorphic correspondence.
+   Whole documents on the fragment of Spec/CstEnt.v (the CstText fragment plus an internal DTD subset declaring general
+   entities, references in content and in attribute values, nested up to the documented limits, re-declarations):
+   sem c is DEFINED as the meaning of the document with every reference replaced by its (first-declared) replacement
+   text, computed on the abstract syntax; parse (render c) yields exactly that (parse_render_sem_ent_partial), so two
+   documents that differ only in what is routed through entities (hoist_insensitive_partial), and a document and its
+   fully inlined DOCTYPE-free version (inlined_equiv_partial), give identical trees.  `_partial`: entities whose
+   replacement text is character data (etext_only c: literals, character / predefined references, nested references);
+   replacement texts containing markup are decided by the metamorphic correspondence (D15 is the known finding there).
+   With allow_dtd = false the same rendering gives Err DtdDetected (dtd_refused, markup entities included).
    Statements are pinned here (copied verbatim from the proof files by tools/pin_props.py);
    each is re-proved by `exact` and followed by Print Assumptions. *)
 From Coq Require Import Ascii String.
@@ -14,8 +21,59 @@ Import ListNotations.
 From RX Require Import Generated.
 From RX.Model Require Import Base CharClass Stream Tokenizer Doc Builder Parse Api.
 From RX.Spec Require Import Text.
-From RX.Proofs Require Import TextMachine HoistProofs RejectProofs.
+From RX.Spec Require Cst CstText CstEnt.
+From RX.Proofs Require Import TextMachine HoistProofs RejectProofs CstMain CstTextSem CstEntSem CstEntDoc CstEntMain.
 Open Scope N_scope.
+
+(* ---- Proofs/CstEntMain.v ---- *)
+Module G0.
+Module E := CstEnt.
+Theorem C07_parse_render_sem_ent_partial :
+  forall (c : E.doc) (opt : options),
+  E.wf_doc c = true ->
+  etext_only c = true ->                                       (* PARTIAL: every declared entity is character data *)
+  allow_dtd opt = true ->
+  N.of_nat (length (E.sem c)) < nodes_limit opt ->            (* room for all nodes + the Root *)
+  N.of_nat (length (E.render c)) <= u32_max ->                 (* the input is at most u32::MAX bytes long *)
+  exists d, parse (E.render c) opt = Ok d /\
+            view (E.render c) d = E.sem c /\
+            (forall nd ns local ar nss, In nd (d_nodes d) -> nd_kind nd = KElement ns local ar nss -> ns = None) /\
+            (forall a, In a (d_attrs d) -> ad_ns_idx a = None).
+Proof. exact parse_render_sem_ent_partial. Qed.
+Print Assumptions C07_parse_render_sem_ent_partial.
+
+Theorem C07_hoist_insensitive_partial :
+  forall c1 c2 opt,
+  E.wf_doc c1 = true -> E.wf_doc c2 = true -> etext_only c1 = true -> etext_only c2 = true ->
+  allow_dtd opt = true -> E.sem c1 = E.sem c2 ->
+  N.of_nat (length (E.sem c1)) < nodes_limit opt ->
+  N.of_nat (length (E.render c1)) <= u32_max -> N.of_nat (length (E.render c2)) <= u32_max ->
+  exists d1 d2, parse (E.render c1) opt = Ok d1 /\ parse (E.render c2) opt = Ok d2 /\
+                view (E.render c1) d1 = view (E.render c2) d2.
+Proof. exact hoist_insensitive_partial. Qed.
+Print Assumptions C07_hoist_insensitive_partial.
+
+Theorem C07_inlined_equiv_partial :
+  forall (c : E.doc) (c' : T.doc) opt,
+  E.wf_doc c = true -> etext_only c = true -> allow_dtd opt = true ->
+  T.wf_doc c' = true -> T.sem c' = E.sem c ->
+  N.of_nat (length (E.sem c)) < nodes_limit opt ->
+  N.of_nat (length (E.render c)) <= u32_max -> N.of_nat (length (T.render c')) <= u32_max ->
+  exists d d', parse (E.render c) opt = Ok d /\ parse (T.render c') opt = Ok d' /\
+               view (E.render c) d = view (T.render c') d'.
+Proof. exact inlined_equiv_partial. Qed.
+Print Assumptions C07_inlined_equiv_partial.
+
+Theorem C07_dtd_refused :
+  forall (c : E.doc) (opt : options),
+  E.wf_doc c = true -> allow_dtd opt = false ->
+  N.of_nat (length (E.d_before c)) < nodes_limit opt ->      (* room for the comments and PIs before the DOCTYPE *)
+  N.of_nat (length (E.d_before c)) < u32_max ->
+  parse (E.render c) opt = Err DtdDetected.
+Proof. exact dtd_refused. Qed.
+Print Assumptions C07_dtd_refused.
+
+End G0.
 
 (* ---- Proofs/HoistProofs.v ---- *)
 Theorem C07_push_attr_chunks_app :
@@ -151,7 +209,7 @@ Proof. exact attr_hoist_split_crlf. Qed.
 Print Assumptions C07_attr_hoist_split_crlf.
 
 (* ---- Proofs/RejectProofs.v ---- *)
-Module G1.
+Module G2.
 Local Notation token := Tokenizer.token.
 Theorem C07_find_entity_first :
   forall text es name e, find_entity text es name = Some e ->
@@ -172,4 +230,4 @@ Theorem C07_ok_refs_defined_first :
 Proof. exact ok_refs_defined_first. Qed.
 Print Assumptions C07_ok_refs_defined_first.
 
-End G1.
+End G2.
